@@ -179,6 +179,46 @@ def make_parser(cfg, limit=2 ** 20):
     return p
 
 
+class ParserHang(BaseException):
+    """one feed_data call used more than HANG_CPU_S seconds of CPU: a loop that does not end (a read is a few KB)"""
+
+
+HANG_CPU_S = 2.0
+HANGS = []
+
+
+def note_hang(cfg, segs):
+    """remember an input on which feed_data did not return; after a few of them further exploration is pointless
+    (every such input costs HANG_CPU_S) — the check's `finally: hang_report(ctx)` turns them into violations"""
+    from .stop import StopCheck
+    HANGS.append((cfg.spec(), hx(b"".join(segs)), [len(s) for s in segs], cfg.response))
+    if len(HANGS) >= 3:
+        raise StopCheck(f"feed_data did not return within {HANG_CPU_S} s of CPU on {len(HANGS)} inputs")
+
+
+def hang_report(ctx):
+    for spec, stream, cuts, resp in HANGS:
+        ctx.violation(f"C10/hang/feed_data-does-not-return/{'resp' if resp else 'req'}", {"cfg": spec, "stream": stream, "cuts": cuts},
+                      f"HttpParser.feed_data did not return within {HANG_CPU_S} s of CPU time on a {sum(cuts)}-byte stream (busy loop: the event loop is blocked)")
+    del HANGS[:]
+_watch_ok = None
+
+
+def _watch(on):
+    """CPU-time watchdog around one parser call (ITIMER_VIRTUAL counts this process's user time only)"""
+    global _watch_ok
+    import signal
+    if _watch_ok is None:
+        def _fire(signum, frame):
+            raise ParserHang(f"feed_data used more than {HANG_CPU_S} s of CPU")
+        try:
+            signal.signal(signal.SIGVTALRM, _fire); _watch_ok = True
+        except (ValueError, OSError):
+            _watch_ok = False
+    if _watch_ok:
+        signal.setitimer(signal.ITIMER_VIRTUAL, HANG_CPU_S if on else 0)
+
+
 def run_impl(cfg, segs, eof=False):
     """→ (canonical string in the driver's format, structured outcome for the oracle)"""
     global _log
@@ -196,9 +236,17 @@ def run_impl(cfg, segs, eof=False):
         if cfg.response:
             kw["SEP"] = b"\n" if cfg.lax else b"\r\n"
         try:
-            msgs, upgraded, rest = p.feed_data(seg, **kw)
+            _watch(True)
+            try:
+                msgs, upgraded, rest = p.feed_data(seg, **kw)
+            finally:
+                _watch(False)
             e = None
         except BaseException as ex:  # noqa
+            if type(ex).__name__ == "_Runaway":
+                raise
+            if isinstance(ex, ParserHang):
+                note_hang(cfg, segs)
             msgs, upgraded, rest, e = None, None, b"", ex
         created = [s for (k, s) in _log if k == "new"]
         _log = None
